@@ -898,10 +898,10 @@ fn holes_program(rng: &mut Rng) -> String {
             text.push_str(&format!("  y : ({a} -> {b}) = x\n  y\nf\n"));
             text
         }
-        4 if rng.chance(1, 3) => {
+        4 if rng.chance(2, 3) => {
             // an unannotated recursive definition whose inferred type would have to contain itself
             // (the occurs check is what rejects it), hidden behind n unannotated parameters
-            let n = rng.range(0, 16);
+            let n = rng.range(0, 24);
             let names: Vec<String> = (0..n).map(|i| format!("a{i}")).collect();
             let mut body = "f".to_owned();
             for name in &names {
